@@ -71,6 +71,34 @@ def extract(binpath, n, contents, side, phase="ready", threads=16):
     return res
 
 
+def extract_handler(n, threads=16):
+    """Leg B at protocol-handler level: real ChannelHandlers (protocol versions 4, 5, 6) over the
+    cloud-staged transactional store, vlsd-style enter/handle/prepare/commit per request."""
+    key = ("handler", n)
+    if key in _EXTRACT_CACHE:
+        return _EXTRACT_CACHE[key]
+    binpath = vlib.build("hand")
+    d = vlib.workdir("chan-h-%d" % n)
+    alpha = os.path.join(d, "alphabet.json")
+    reqs = alphabet(n, "full", "handler", alpha)
+    t0 = time.time()
+    stats = vlib.run_bin(binpath, ["explore", "--alphabet", alpha, "--n", n, "--out", os.path.join(d, "ex"),
+                                   "--threads", threads], timeout=3000)
+    nodes = os.path.join(d, "nodes.ndjson")
+    rows = vlib.merge_nodes(os.path.join(d, "ex"), nodes)
+    details = []
+    for fn in sorted(os.listdir(os.path.join(d, "ex"))):
+        if fn.startswith("details-"):
+            with open(os.path.join(d, "ex", fn)) as f:
+                details += [json.loads(l) for l in f if l.strip()]
+    res = {"dir": d, "alphabet": alpha, "requests": reqs, "nodes": nodes, "stats": stats, "rows": len(rows),
+           "details": details, "wall_s": time.time() - t0, "n": n, "side": "handler", "phase": "ready",
+           "contents": "full"}
+    log("[chan] explored real protocol handlers N=%d: %s in %.1fs" % (n, stats, res["wall_s"]))
+    _EXTRACT_CACHE[key] = res
+    return res
+
+
 def impl_tlc(ex, mon, invariants, workers=8, timeout=3000):
     """Leg B step 2: TLC on the extracted implementation graph (conformance + monitors)."""
     d = ex["dir"]
